@@ -24,7 +24,11 @@ import numpy as np
 from . import common
 
 PROP = "C01"
-LEAN_MODULES = ["MiciVerif.Props.C01", "MiciVerif.Props.C01Stats"]
+# >>> builder B8: source-skeleton tie (tools/extractors/transition_skeleton.py -> Generated/TransitionSkeleton.lean,
+# theorems in Props/C01S.lean: generated tree = expected tree, named projections, reading of _sample_n_step)
+GENERATED = ["transition_skeleton"]
+LEAN_MODULES = ["MiciVerif.Props.C01", "MiciVerif.Props.C01Stats", "MiciVerif.Props.C01S"]
+# <<< builder B8
 LEAN_EXTRA = ["MiciVerif.Model.Transitions", "MiciVerif.Proto"]
 
 R_DELTA = 5  # max_delta_h = log(5); weight ratios are never within 6% of 5 (see gen_weights)
@@ -199,7 +203,14 @@ def term_flag(orb, a, m, salt, extra):
 # generators
 
 
-def gen_orbit(rng, D, lo=-16, L=33):
+def escalated(ctx) -> bool:
+    """A proof obligation of this check is broken (a theorem of Props/C01, C01Stats or of the source-skeleton tie
+    Props/C01S no longer compiles against the tables regenerated from the tree under test): the failing-input
+    search is widened (more orbits, more failing steps inside the trajectories, deeper trees)."""
+    return (not ctx.build_ok) or any(not o["ok"] for o in ctx.obligations)
+
+
+def gen_orbit(rng, D, lo=-16, L=33, n_bad=None):
     w = []
     mild = rng.random() < 0.5  # mild: all weight ratios <= 4 < R_DELTA, so no start-dependent divergence
     for _ in range(L):
@@ -212,7 +223,7 @@ def gen_orbit(rng, D, lo=-16, L=33):
             w.append(Fraction(int(rng.choice(WEIGHT_NUMS)), 16) * Fraction(2) ** int(rng.integers(-1, 2)))
     nan_nodes = {k for k in range(L) if w[k] == 0 and rng.random() < 0.5}
     bad = {}
-    for _ in range(int(rng.integers(0, 3))):
+    for _ in range(int(rng.integers(0, 3)) if n_bad is None else n_bad):
         bad[int(rng.integers(lo, lo + L - 1))] = "nonrev" if rng.random() < 0.5 else "conv"
     mom = [int(x) for x in rng.integers(-3, 4, L)]
     return Orbit(lo, w, bad, mom, nan_nodes)
@@ -271,14 +282,16 @@ def run_metropolis(ctx, orb, n_or_range, i, fwd, random_len):
 
 
 def metropolis_section(ctx, rng):
-    n_orbits = ctx.n(30, 300)
+    esc = escalated(ctx)
+    n_orbits = max(ctx.n(30, 300), 150) if esc else ctx.n(30, 300)
     reqs, metas = [], []
     for _ in range(n_orbits):
-        orb = gen_orbit(rng, 0, lo=-8, L=17)
+        # escalated: 2-4 failing steps per window, so that many trajectories fail after >= 1 successful step
+        orb = gen_orbit(rng, 0, lo=-8, L=17, n_bad=int(rng.integers(2, 5)) if esc else None)
         wv = "[" + ",".join(fr(x) for x in orb.w) + "]"
         bv = "[" + ",".join(str(e) for e in sorted(orb.bad)) + "]"
         random_len = rng.random() < 0.4
-        n = int(rng.integers(1, 4))
+        n = int(rng.integers(2, 4)) if esc else int(rng.integers(1, 4))
         rng_range = (n, n + int(rng.integers(1, 3)))
         for i in range(-3, 4):
             if orb.weight(i) == 0:
@@ -482,8 +495,9 @@ def model_dynamic(orb, D, i, kind, salt, extra, levels):
 
 def dynamic_section(ctx, rng):
     cases = []
-    for _ in range(ctx.n(40, 400)):
-        D = int(rng.choice([1, 2, 2, 3, 3] if ctx.quick else [1, 2, 3, 3, 4]))
+    esc = escalated(ctx)
+    for _ in range(max(ctx.n(40, 400), 120) if esc else ctx.n(40, 400)):
+        D = int(rng.choice([2, 3, 3] if esc and ctx.quick else [1, 2, 2, 3, 3] if ctx.quick else [1, 2, 3, 3, 4]))
         half = max(16, 2 ** (D + 1) + 2)
         orb = gen_orbit(rng, D, lo=-half, L=2 * half + 1)
         kind = "multinomial" if rng.random() < 0.5 else "slice"
@@ -575,6 +589,8 @@ def run(ctx: common.Ctx):
         "float weights exp(-h) vs exact dyadic weights: probabilities compared with rtol 1e-9",
         "slice variant: one representative slice level per interval between thresholds; Fubini over u (proved as a finite mixture: slice_mixture_invariant)",
     ]
+    if escalated(ctx):
+        ctx.count("search_escalated")
     metropolis_section(ctx, rng)
     dynamic_section(ctx, rng)
     real_system_section(ctx, rng)
@@ -731,3 +747,38 @@ LEVEL_NOTE = (
     "Props/C01Stats.lean relate that computation to the transition kernel. Continuous-state measure theory is not formalised."
 )
 TECHNIQUE = "Lean 4 proof (structural induction on trajectory trees, finite-sum re-indexing) + exhaustive rng-path enumeration of the real transitions vs the model"
+
+# >>> builder B8: source-skeleton tie
+LEVEL_TEXT += (
+    " Source tie (Props/C01S.lean, re-checked against Generated/TransitionSkeleton.lean, which is regenerated from "
+    "transitions.py of the tree under test on every run): skel_*_eq_model — the statement trees of _sample_n_step, both "
+    "Metropolis sample methods and constructors, DynamicIntegrationTransition.sample/_build_tree/_new_leave/"
+    "_merge_subtrees/_termination_criterion/_init_aux_vars, both subclasses' _weight_function/_weight_ratio/"
+    "_check_divergence, both no-U-turn criteria and the momentum transitions equal the annotated trees the model was "
+    "written against; 19 named projections computed from the generated trees only (accept test guarded by `not "
+    "integration_error` with the guard first, direction reversed on the proposal and after the test, NaN gives acceptance "
+    "0, n_step = loop index after an error, accept_stat 0 after an error, fair direction draw, break after a terminating "
+    "merge, biased-progressive ratio new/old, uniform-progressive ratio inside _build_tree, slice divergence on the slice "
+    "variable / multinomial on h_init, termination criterion called with (tree, negative half, positive half) at both "
+    "sites, extra sub-tree checks only when enabled, weight functions, class overrides, statistics, momentum formula); "
+    "sem_sample_n_step_is_metropolis — the reading Skel.TSem of the generated body of _sample_n_step on an arbitrary "
+    "integrator orbit (steps one by one, aliasing of state_p, short-circuit of the accept test) IS Transitions.metropolis "
+    "paired with Transitions.metropolisStats, for every orbit, n >= 1, start and direction; "
+    "sem_sample_is_metropolis_and_metropolisRandom — the two sample methods are metropolis o n and "
+    "bind (uniformRange lo hi) (metropolis o .); sem_dynamic_pass_is_stepUp / sem_dynamic_loop_is_final — the reading "
+    "Skel.DSem of the generated loop body of DynamicIntegrationTransition.sample on a trajectory tree is "
+    "Transitions.stepUp per pass and Transitions.final for the whole loop, for every tree, flags, weights and start, the "
+    "_build_tree calls being read by Skel.BSem from the generated body of _build_tree: sem_build_tree_is_propose — that "
+    "body (leaf block with its try/handler, recursive part) hands back nothing iff not(entryOk and valid), else weight W "
+    "and a proposal distributed as TTree.propose. Outside the theorems: the criterion functions (a flag of the block; "
+    "projections only), the leaf-level conventions (weights, which statements raise), the statistics of the dynamic "
+    "transitions (projections + correspondence). A broken obligation widens the search (5x orbits with 2-4 failing "
+    "steps each, 3x trees, depth >= 2)."
+)
+LEVEL_NOTE += (
+    " Trusted in the source tie: the AST translator tools/extractors/transition_skeleton.py (fail-closed unknown nodes, "
+    "committed expected output) and the reading conventions of Skel.TSem (exp(min(0, dh)) with NaN -> 0 is ratio of "
+    "weights; integrator.step returns a new object and raises exactly on a failing orbit step), validated by the "
+    "correspondence runs."
+)
+# <<< builder B8
